@@ -438,6 +438,7 @@ impl Parser {
             "recvonly" => *direction = Direction::RecvOnly,
             "sendonly" => *direction = Direction::SendOnly,
             "inactive" => *direction = Direction::Inactive,
+            "ice-lite" => self.ice_lite = true,
             "end-of-candidates" => {
                 if let Some(media_description) = self.media_descriptions.last_mut() {
                     media_description.ice_end_of_candidates = true;
